@@ -89,6 +89,8 @@ def prog_event(tid, o, i, fl, placement):
     from sigtools import signatures
     base = placement.replace('_unbound', '')
     auto = base.startswith('auto')
+    if base.startswith('auto_carrier'):
+        fl = dict(fl, partial=False, n=0, names=[])      # nothing written: the swapped callee takes no arguments at all
     src = progs.render_forwarding(o, i, fl, base)
     g, fname = progs.compile_module(src)
     fns = absig.FnTable()
@@ -153,6 +155,11 @@ def prog_event(tid, o, i, fl, placement):
             plain_target = fn
             if base == 'auto_method':
                 declared, agree = outcome_full(declared_thunk(inst.w, inst.inner, fl), fns), 'ps'
+            if base.startswith('auto_carrier'):
+                codes = {code, g['run'].__code__}
+                # all that can be said: the wrapper forwards to run, whose own callee is not known (run's plain signature)
+                declared, agree = outcome_full(declared_thunk(inst.w, g['run'], dict(fl, n=fl['n'] + 1)), fns), 'ps'
+                skipexec = True      # what the swapped callee accepts is, by construction, not what anything visible says
         reported = outcome_full(lambda: sigtools.signature(fn), fns)
         others = [retrieve(lambda: sigtools.signature(fn, auto=False))] if not (unbound or auto) else []
         if 'emulate' in base:
@@ -162,7 +169,7 @@ def prog_event(tid, o, i, fl, placement):
         maxpos = progs.npos(eff_o) + progs.npos(i) + 1 + fl['n']
         if skipexec:
             # the callee parameter h must keep its default to be callable: only calls that do not touch it are executed
-            names = [n for n in names if n != 'h']
+            names = [] if base.startswith('auto_carrier') else [n for n in names if n != 'h']
             maxpos = 0
         bo, bi, other = progs.execute(fn, names, maxpos, codes, first=inst if unbound else None)
     finally:
@@ -187,7 +194,7 @@ def prog_gen(UO, UI, nprog, seed):
             fl = written_flags(UO[a], UI[b], rnd)
             placement = PLACEMENTS[k % len(PLACEMENTS)]
             if placement == 'apply_super' and fl['partial']:
-                fl = dict(fl, partial=False)
+                fl = dict(fl, partial=False, n=0, names=[])      # nothing written: the swapped callee takes no arguments at all
             if k % nshards == shard:
                 yield prog_event('prog/%d-%d-%d-%s' % (k, a, b, placement), UO[a], UI[b], fl, placement)
     return gen
